@@ -26,6 +26,7 @@ func init() {
 			"R5 per-count loop: the key of each stored SNP measurement is the loop variable over the requested counts and the value is LaunchDigest called with Vcpus assigned from that variable in the same iteration. " +
 			"R7 every sev.LaunchOptions object built in a function that receives the request gets Product from the request before it is used. R8 an options object created outside a loop has every field that the loop changes re-assigned before each measurement in the loop (no setting leaks from one entry to the next). R6 SignDoc: Cert, CaBundle and Timestamp are stored before the single proto.Marshal of the document and nothing is stored afterwards. " +
 			"R9 a function that assigns the SVN of one technology's request assigns the other technology's on every successful path unless that request is nil / dropped (the SVN side file reaches every endorsed technology). " +
+			"R11 every lookup into a package-level table of package tdx uses the same kind of key (none normalises the requested name where another uses it raw). " +
 			"R10 in the command layer a Context field that is loaded under its own flag test is loaded on every successful path on which that flag may be set (an early return in front of the block does not skip a requested input). " +
 			"Not covered: that each digest equals the launch measurement (C04/C05).",
 		Assumptions: []string{"go/types, go/ssa, VTA call graph", "bytes.Buffer writes do not fail", "generated protobuf struct fields are the message contents"},
@@ -682,6 +683,70 @@ func runC06(c *Ctx) {
 			}
 		}
 		c.S.Floor("R9", "functions assigning a request's SVN", 1, nFns)
+	}
+
+	// ---- R11: one table, one key ----
+	// Every lookup into a package-level table of package tdx (machine shape → layout) uses the requested name as it
+	// is: if one site normalises the key (a call on the way from the name to the index) and another does not, a
+	// name accepted at the first site is absent at the second, and the entry signed for it carries the zero value
+	// (RAM size 0) as its label.
+	{
+		type lk struct {
+			in      *ssa.Lookup
+			fn      *ssa.Function
+			viaCall string
+		}
+		byTable := map[*ssa.Global][]lk{}
+		for _, f := range c.P.RepoFunctions() {
+			if load.RelPkg(f) != "tdx" || c.isTestFunc(f) {
+				continue
+			}
+			for _, b := range f.Blocks {
+				for _, in := range b.Instrs {
+					l, ok := in.(*ssa.Lookup)
+					if !ok {
+						continue
+					}
+					u, ok := l.X.(*ssa.UnOp)
+					if !ok {
+						continue
+					}
+					g, ok := u.X.(*ssa.Global)
+					if !ok {
+						continue
+					}
+					via := ""
+					if call, ok := l.Index.(*ssa.Call); ok {
+						via = callName(call)
+					}
+					byTable[g] = append(byTable[g], lk{l, f, via})
+				}
+			}
+		}
+		nT := 0
+		for g, ls := range byTable {
+			if len(ls) < 2 {
+				continue
+			}
+			nT++
+			raw, norm := 0, ""
+			var at *ssa.Lookup
+			for _, l := range ls {
+				if l.viaCall == "" {
+					raw++
+				} else {
+					norm, at = l.viaCall, l.in
+				}
+			}
+			okT := raw == 0 || norm == ""
+			pos := ls[0].in.Pos()
+			if at != nil {
+				pos = at.Pos()
+			}
+			c.S.Check(okT, "R11", "tdx."+g.Name()+":one key", c.pos(pos), fmt.Sprintf("%d lookups, all with the same kind of key", len(ls)),
+				fmt.Sprintf("table %s is looked up under a key transformed by %s at one site and under the raw name at %d other site(s): a name the first accepts is missing at the others, which then read the zero value", g.Name(), norm, raw))
+		}
+		c.S.Floor("R11", "package-level tables of tdx looked up at several sites", 1, nT)
 	}
 
 	// ---- R10: an input the request names is loaded ----
